@@ -1256,6 +1256,19 @@ M('C14', 'calc_U key stored after the gates but before the flag reset (twin)', T
   "        self._U_param = U_param\n        self._U = U\n        self.force_prepare_evolve = False\n",
   None, expect='silent')
 
+M('C18', 'original defect: _connect_measurements_fct modifies the kwargs dict of the options entry', SIM,
+  "        if extra_kwargs is None:\n            extra_kwargs = {}\n        else:\n            extra_kwargs = dict(extra_kwargs)  # modified below; the entry belongs to the options\n        wrap = False",
+  "        if extra_kwargs is None:\n            extra_kwargs = {}\n        wrap = False",
+  'OPTIONS-readonly')
+M('C18', 'original defect: _post_processing deletes results_key from the kwargs dict of the options entry', SIM,
+  "        else:\n            extra_kwargs = dict(extra_kwargs)  # modified below; the entry belongs to the options\n        function = hdf5_io.find_global",
+  "        function = hdf5_io.find_global",
+  'OPTIONS-readonly')
+M('C18', '_connect_measurements_fct copies the kwargs with .copy() unconditionally (twin)', SIM,
+  "        if extra_kwargs is None:\n            extra_kwargs = {}\n        else:\n            extra_kwargs = dict(extra_kwargs)  # modified below; the entry belongs to the options\n        wrap = False",
+  "        extra_kwargs = {} if extra_kwargs is None else extra_kwargs.copy()\n        wrap = False",
+  None, expect='silent')
+
 # ---------------------------------------------------------------- C16 / C19
 M('C16', 'GMRES restart: relative residual norm used for normalisation (round-3 seed b)', KRY,
   """        self.total_error.append([npc.norm(self.rs[-1]) / self.b_norm])
